@@ -11,6 +11,10 @@ CHECKS = {
    "rapid state machine over Store/Load/Clear against an in-memory model of the cache (configuration pairs differing in one field, timestamps around equality, tested-package rule), every truncation point plus random bit flips/overwrites of stored files, SIGKILL injected with strace at every file-system call of Store, gob round trip of parsed Go files and end-to-end JavaScript equality for cache-restored packages",
    "trusts os.UserCacheDir/XDG_CACHE_HOME redirection, strace signal injection as a stand-in for a crash, and the exported compiler pipeline for the end-to-end comparison; power loss is out of scope",
    "model-based stateful property testing (rapid) + exhaustive truncation/crash-point enumeration with a miss-or-intact oracle"),
+ "C19": ("exploration",
+   "rapid-generated hint/code streams through the real source-map filter under random chunkings checked against a reference line/column scan and an independent VLQ decoder; whitespace removal must keep hints and tokens; generated throw-site programs (plain and minified) whose Node stack frames are resolved through the emitted map to the throwing statement",
+   "hint bytes are produced by the real encoder through verif-tagged hooks; generated columns are compared in bytes; Node's stack trace format is trusted",
+   "property-based testing against a reference model (rapid) + differential stack-frame resolution on generated programs"),
 }
 PENDING_REASON = "check not built yet in this session (work in progress; see DESIGN.md §8 for the order)"
 props=[json.loads(l)['id'] for l in open('/verif/properties.jsonl')]
